@@ -456,6 +456,42 @@ fn gen_url(r: &mut Rng, long: bool) -> String {
     s
 }
 
+/// Sometimes push a run of reservations one level further down, under a middle policy that is
+/// a plain grouping, a repeated match-subnet, or a range pool around the reserved addresses.
+fn nest(r: &mut Rng, subs: Vec<PolicyM>, net: Ipv4Addr, plen: u8, hs: &[u32], server_ip: Ipv4Addr) -> Vec<PolicyM> {
+    if subs.is_empty() || !r.chance(0.4) {
+        return subs;
+    }
+    let keep = r.below(subs.len() as u64) as usize;
+    let mut outer: Vec<PolicyM> = subs[..keep].to_vec();
+    let inner: Vec<PolicyM> = subs[keep..].to_vec();
+    let middle = match r.below(4) {
+        0 => PolicyM { policies: inner, ..Default::default() },
+        1 => PolicyM { match_subnet: Some((net, plen)), policies: inner, ..Default::default() },
+        2 => {
+            /* a chaddr-less grouping two levels deep */
+            let g = PolicyM { policies: inner, ..Default::default() };
+            PolicyM { policies: vec![g], ..Default::default() }
+        }
+        _ => {
+            let addrs: Vec<u32> = inner.iter().flat_map(|p| p.apply_address.iter().map(|a| u32::from(*a))).collect();
+            if addrs.is_empty() {
+                PolicyM { policies: inner, ..Default::default() }
+            } else {
+                let lo = *addrs.iter().min().unwrap();
+                let hi = *addrs.iter().max().unwrap();
+                let lo = lo.saturating_sub(r.below(3) as u32).max(hs[0]);
+                let hi = (hi + r.below(3) as u32).min(*hs.last().unwrap());
+                let _ = server_ip;
+                PolicyM { match_subnet: Some((net, plen)), apply_range: vec![(lo.into(), hi.into())], policies: inner, ..Default::default() }
+            }
+        }
+    };
+    let at = r.below(outer.len() as u64 + 1) as usize;
+    outer.insert(at, middle);
+    outer
+}
+
 pub fn gen_config(r: &mut Rng, lans: &[Lan], clients: &[ClientSpec], allow_policies: bool, tracers: bool) -> ConfModel {
     let mut addresses = vec![];
     let mut policies = vec![];
@@ -486,6 +522,7 @@ pub fn gen_config(r: &mut Rng, lans: &[Lan], clients: &[ClientSpec], allow_polic
                         subs.push(PolicyM { apply_address: vec![a.into()], ..Default::default() });
                     }
                 }
+                let subs = nest(r, subs, net, lan.plen, &hs, lan.server_ip);
                 if !subs.is_empty() {
                     policies.push(PolicyM { match_subnet: Some((net, lan.plen)), policies: subs, ..Default::default() });
                 }
@@ -506,6 +543,7 @@ pub fn gen_config(r: &mut Rng, lans: &[Lan], clients: &[ClientSpec], allow_polic
                         subs.push(PolicyM { match_chaddr: Some(c.chaddr.clone()), ..Default::default() });
                     }
                 }
+                let subs = nest(r, subs, net, lan.plen, &hs, lan.server_ip);
                 policies.push(PolicyM {
                     match_subnet: Some((net, lan.plen)),
                     apply_subnet: vec![(net, lan.plen)],
@@ -759,6 +797,20 @@ pub fn generate(seed: u64, opts: &GenOpts) -> PlanA {
         }
     }
 
+    /* every single address written as an apply-address anywhere, in any configuration */
+    fn reserved_of(p: &PolicyM, out: &mut Vec<u32>) {
+        out.extend(p.apply_address.iter().map(|a| u32::from(*a)));
+        for q in &p.policies {
+            reserved_of(q, out);
+        }
+    }
+    let mut reserved: Vec<u32> = vec![];
+    for c in &configs {
+        for p in &c.policies {
+            reserved_of(p, &mut reserved);
+        }
+    }
+
     let mut steps: Vec<Step> = vec![];
     let mut t: u64 = 1000;
     let nsteps = r.range(6, if opts.thorough { 60 } else { 30 }) as usize;
@@ -819,6 +871,10 @@ pub fn generate(seed: u64, opts: &GenOpts) -> PlanA {
             let any_host = |r: &mut Rng| -> Ipv4Addr {
                 let l = &lans[lan];
                 let hs: Vec<u32> = hosts(l.network(), l.plen).into_iter().collect();
+                let here: Vec<u32> = reserved.iter().copied().filter(|a| hs.contains(a)).collect();
+                if !here.is_empty() && r.chance(0.3) {
+                    return Ipv4Addr::from(*r.pick(&here));
+                }
                 match r.below(8) {
                     0 => Ipv4Addr::from(l.network()),
                     1 => Ipv4Addr::from(l.broadcast()),
